@@ -1,6 +1,7 @@
 package c07
 
 import (
+	"context"
 	"encoding/json"
 	"fmt"
 	"os"
@@ -51,7 +52,11 @@ func runInChild(res *kit.Result, c Case) {
 	defer os.Remove(f.Name())
 	base, _ := os.MkdirTemp(kit.Scratch, "c07-child-")
 	defer os.RemoveAll(base)
-	cmd := exec.Command(os.Args[0])
+	// the context kills a child that exceeds the budget (a slow machine is not a verdict); using the context
+	// instead of touching cmd.Process from here keeps the harness itself free of data races
+	ctx, cancel := context.WithTimeout(context.Background(), 40*time.Second)
+	defer cancel()
+	cmd := exec.CommandContext(ctx, os.Args[0])
 	env := []string{}
 	for _, kv := range os.Environ() {
 		if strings.HasPrefix(kv, "GORACE=") || strings.HasPrefix(kv, childEnv+"=") {
@@ -62,18 +67,10 @@ func runInChild(res *kit.Result, c Case) {
 	// in the race twin the child is a -race binary as well: first report ends it with status 66
 	env = append(env, childEnv+"="+f.Name(), childEnv+"_DIR="+base, "GORACE=halt_on_error=1 exitcode=66", "VERIF_SCRATCH="+kit.Scratch)
 	cmd.Env = env
-	done := make(chan struct{})
-	var out []byte
-	var runErr error
-	go func() { out, runErr = cmd.CombinedOutput(); close(done) }()
-	select {
-	case <-done:
-	case <-time.After(15 * time.Second):
-		if cmd.Process != nil {
-			cmd.Process.Kill()
-		}
-		<-done
-		return // a slow machine is not a verdict
+	out, runErr := cmd.CombinedOutput()
+	if ctx.Err() != nil {
+		res.Count("child-timeouts", 1)
+		return
 	}
 	if runErr == nil {
 		return
